@@ -40,7 +40,7 @@ def histories(ctx):
     rng = ctx.rng
     hs = []
     for i in range(ctx.scale(70, 800)):
-        spec = engine.gen_spec(rng, nt=(2, 7), after_p=0.2, after_needs_prods=True)
+        spec = engine.gen_spec(rng, nt=(2, 7), after_p=0.2, after_needs_prods=True, link_p=0.3, dirprod_p=0.3, hashed_p=0.25)
         h = histgen.random_history(rng, spec, rng.randint(4, 10), EDITS, CFGS, final_build={})
         h["steps"] = [["build", {}]] + h["steps"] + [["build", {}]]
         hs.append(h)
@@ -55,7 +55,7 @@ def nontrivial(h, recs):
 def run(ctx):
     ctx.rule = ("histories as in C02 with the edit mix shifted to touch-only, identical rewrites, edit-then-revert, unrelated edits, selections; oracle = harness "
                 "ground truth of tracked contents at each task's last SUCCESS/PERSISTENCE; non-trivial = ≥3 builds and ≥1 content-preserving or content-changing edit")
-    engine.run_campaign(ctx, histories(ctx), oracle, nontrivial=nontrivial, sel_eval=engine.sel_eval)
+    engine.run_campaign(ctx, histories(ctx), oracle, nontrivial=nontrivial, sel_eval=engine.sel_eval, rotate_seeds=True)
 
 
 def replay(ctx, obj):
